@@ -159,8 +159,9 @@ func (e *storeEnv) parseTotal(src string, transports bool) (o parseObs) {
 				rest = append(rest, fmt.Sprintf("%s@%d:%d-%d:%d", x.Message, x.Start.Line, x.Start.Column, x.End.Line, x.End.Column))
 			}
 		}
-		o.RestSame = code == 200 && strings.Join(rest, "\n") == strings.Join(apiMsgs, "\n")
-		gr, err := e.sx.Check(context.Background(), &opl.CheckRequest{Content: []byte(src)})
+		// (JSON cannot carry bytes that are not UTF-8: the comparison is on what encoding/json makes of the parser's text)
+		o.RestSame = code == 200 && strings.Join(rest, "\n") == jsonText(strings.Join(apiMsgs, "\n"))
+		gr, err := grpcWire(e.sx.Check(context.Background(), &opl.CheckRequest{Content: []byte(src)}))
 		if err != nil {
 			o.GrpcCode = err.Error()
 		} else {
